@@ -203,13 +203,13 @@ class SymEngine:
         self.choices[name] = idx
         return options[idx]
 
-    def lit(self, x):
+    def lit(self, x, paren=True):
         """text of a number for embedding in definition / expression strings"""
         if isinstance(x, self._q.Q):
             if x.c is None:
                 return str(x)  # placeholder (with explicit sign)
             x = x.c
-        return _lit_of_fraction(Fraction(x))
+        return _lit_of_fraction(Fraction(x), paren)
 
     # ------------------------------------------------------------------ constraints
 
@@ -711,8 +711,10 @@ def _eval_obs(m, v, qmod):
     return repr(v)
 
 
-def _lit_of_fraction(fr: Fraction) -> str:
+def _lit_of_fraction(fr: Fraction, paren=True) -> str:
     """a text literal pint's tokenizer reads back as exactly this number"""
+    if not paren:
+        return str(fr.numerator) if fr.denominator == 1 else f"{fr.numerator}/{fr.denominator}"
     if fr.denominator == 1:
         return str(fr.numerator) if fr >= 0 else f"(-{-fr.numerator})"
     d = fr.denominator
@@ -773,8 +775,8 @@ class ConcEngine:
     def choice(self, name, options):
         return list(options)[self._get("choice:" + name)]
 
-    def lit(self, x):
-        return _lit_of_fraction(Fraction(x))
+    def lit(self, x, paren=True):
+        return _lit_of_fraction(Fraction(x), paren)
 
     def assume(self, cond):
         if not cond:
